@@ -850,3 +850,77 @@ Theorem import_misattributes_after_bridger_reuse :
   assoc Z.eqb 12 (st_oracles ex_reuse_state) = Some {| o_bridger := 21; o_external := 32 |} /\
   import_conf true ex_reuse_state = st_conf ex_reuse_state.
 Proof. repeat split; vm_compute; reflexivity. Qed.
+
+(* ================= the recovery byte V ================= *)
+
+Lemma vnorm_strict_spec : forall n, vnorm_strict n = true ->
+  forall v, 0 <= v < 256 -> apply_vnorm n v = 0 \/ apply_vnorm n v = 1 -> contract_v v <> None.
+Proof.
+  intros n S v R H. unfold vnorm_strict in S. rewrite forallb_forall in S.
+  assert (I : In v (map Z.of_nat (seq 0 256))).
+  { apply in_map_iff. exists (Z.to_nat v). split; [lia|]. apply in_seq. lia. }
+  specialize (S v I). cbv zeta in S.
+  assert (E : (apply_vnorm n v =? 0) || (apply_vnorm n v =? 1) = true).
+  { destruct H as [-> | ->]; reflexivity. }
+  rewrite E in S. cbn [implb] in S. destruct (contract_v v); [discriminate|discriminate S].
+Qed.
+
+(* the helpers of this tree (generated) are strict, on both signer families *)
+Theorem tree_vnorm_strict : vnorm_strict eth_vnorm = true /\ vnorm_strict tron_vnorm = true.
+Proof. split; vm_compute; reflexivity. Qed.
+
+Lemma norm_v_length : forall n sig, length (norm_v n sig) = length sig.
+Proof.
+  intros n sig. unfold norm_v. destruct (nth_error sig 64) as [v|] eqn:E; auto.
+  assert (L : (64 < length sig)%nat) by (apply nth_error_Some; congruence).
+  rewrite !app_length, firstn_length, skipn_length. cbn [length]. lia.
+Qed.
+
+Lemma norm_v_byte64 : forall n sig v, nth_error sig 64 = Some v ->
+  nth_error (norm_v n sig) 64 = Some (apply_vnorm n v).
+Proof.
+  intros n sig v E. unfold norm_v. rewrite E.
+  assert (L : (64 < length sig)%nat) by (apply nth_error_Some; congruence).
+  rewrite nth_error_app2; rewrite firstn_length; [|lia].
+  replace (64 - Nat.min 64 (length sig))%nat with 0%nat by lia. reflexivity.
+Qed.
+
+Section VProofs.
+  Variable recover : bool -> list Z -> list Z -> option Z.
+  (* go-ethereum recovers only from 65 bytes whose last one is 0 or 1 (recovery ids 2 and 3 exist but need r + n < p,
+     probability ~2^-128; the contract's ecrecover does not know them at all) *)
+  Hypothesis recover_v01 : forall t pre s a, recover t pre s = Some a ->
+    length s = 65%nat /\ (nth_error s 64 = Some 0 \/ nth_error s 64 = Some 1).
+
+  (* an accepted (hence stored) confirmation is one the contract's rule can verify: 65 bytes, and V is 0|1|27|28 so that
+     the documented normalisation yields v in {27, 28} - provided the chain's helper normalises strictly *)
+  Theorem accepted_v_usable : forall st m k,
+    vnorm_strict (chain_vnorm (st_tron st)) = true ->
+    handle recover st m = Accepted k ->
+    exists sig v, m_sig m = Some sig /\ length sig = 65%nat /\ nth_error sig 64 = Some v /\
+                  (0 <= v < 256 -> contract_v v <> None).
+  Proof.
+    intros st m k S H. apply handle_accept_iff in H.
+    destruct H as (o & pre & sig & orc & _ & _ & ES & _ & _ & _ & _ & EG & _).
+    unfold sig_signer in EG. destruct (zlen sig <? chain_minlen (st_tron st)); [discriminate|].
+    apply recover_v01 in EG. destruct EG as [L V]. rewrite norm_v_length in L.
+    destruct (nth_error sig 64) as [v|] eqn:E64.
+    - exists sig, v. repeat split; auto. intros R.
+      rewrite (norm_v_byte64 _ _ _ E64) in V.
+      apply (vnorm_strict_spec _ S v R). destruct V as [V|V]; injection V as V; auto.
+    - exfalso. apply nth_error_None in E64. lia.
+  Qed.
+
+  Theorem accepted_v_usable_on_tree : forall st m k,
+    handle recover st m = Accepted k ->
+    exists sig v, m_sig m = Some sig /\ length sig = 65%nat /\ nth_error sig 64 = Some v /\
+                  (0 <= v < 256 -> contract_v v <> None).
+  Proof.
+    intros st m k. apply accepted_v_usable. destruct tree_vnorm_strict as [A B].
+    unfold chain_vnorm. destruct (st_tron st); assumption.
+  Qed.
+End VProofs.
+
+(* the kind of normalisation that is NOT strict: v %= 27 folds 54, 55, 81, ... onto 0 and 1 *)
+Theorem vmod_not_strict : vnorm_strict (VMod 27) = false /\ apply_vnorm (VMod 27) 54 = 0 /\ contract_v 54 = None.
+Proof. repeat split; vm_compute; reflexivity. Qed.
